@@ -188,6 +188,10 @@ def run(c):
     for i, kind in enumerate(["goalstate", "sharedconfig", "imds"]):
         steps.append({"op": "own_call", "kind": kind, "tag": "own%d" % i})
         own_key["own%d" % i] = cur
+    # the clients take the endpoint's port as an argument: the same signed call to another listener of the WireServer address
+    # (whatever the port, the host verifies the MAC over the header block it receives, Host included)
+    steps.append({"op": "own_call", "kind": "goalstate", "tag": "ownalt0", "port": 32526})
+    own_key["ownalt0"] = cur
     # an own call races with the key keeper latching another key: the first key lookup of the call passes, any FURTHER
     # lookup the same call makes is held at the H4 gate until the new key is latched.  Whatever the call reads, the host must
     # be able to verify it: the MAC is valid under the key the header NAMES (either key is acceptable, a mix is not)
